@@ -396,7 +396,9 @@ func runC17(c *Ctx) {
 		c.Check(cnt == 1, "O4", "RET", funcKey(syncForPods)+": live consumers are selected by pod phase", syncForPods.Pos(), "phase ∈ {Running, Pending}", "the sync no longer selects live consumers by phase")
 		if delCons != nil {
 			for _, in := range instrsIn(delCons, isEffect) {
-				d, ok := hasFact(fx.FactsAt(in), func(f Fact) bool { return strings.Contains(f.T.String(), "Status.Phase") && strings.Contains(f.T.String(), "Running") })
+				d, ok := hasFact(fx.FactsAt(in), func(f Fact) bool {
+					return strings.Contains(f.T.String(), "Status.Phase") && strings.Contains(f.T.String(), "Running")
+				})
 				c.Check(ok, "O4", "DOM", funcKey(delCons)+": only running consumers are deleted", instrPos(in), trunc(d, 100), "pending consumers without reservation are deleted too (they are still being bound)")
 			}
 		}
